@@ -610,26 +610,39 @@ Qed.
 (* Run's exit paths                                                    *)
 (* ------------------------------------------------------------------ *)
 
-Theorem run_returns_procs x :
-  run_granted x = true -> x <> XCommitFail -> done_count x = 1%nat.
-Proof. destruct x as [| [|] | | | | []]; intros H N; try reflexivity; try discriminate; congruence. Qed.
+Theorem run_returns_procs x : run_granted x = true -> done_count x = 1%nat.
+Proof. destruct x as [| [|] | | | [|] | []]; intro H; try reflexivity; discriminate. Qed.
 
 Theorem run_ungranted_cancels x : run_granted x = false -> run_calls x = [CCancel].
 Proof. destruct x; intro H; try discriminate; reflexivity. Qed.
 
-Theorem commit_leak_refuted : exists x, run_granted x = true /\ done_count x = 0%nat.
-Proof. exists XCommitFail. split; reflexivity. Qed.
+(* The old path model (before the fix): the exit after a failed combiner commit
+   returned nothing, while the present model returns the procs there too. *)
+Theorem old_commit_exit_leaks :
+  exists x, run_granted x = true /\ old_done_count x = 0%nat /\ done_count x = 1%nat.
+Proof. exists (XCommitFail true). repeat split; reflexivity. Qed.
 
-(* what the leak does: one machine with one slot, parallelism 1. A task whose
-   combiner commit fails keeps the slot; the next task can never be placed and
-   no machine will be started for it. *)
-Example commit_leak_starves :
+Lemma old_commit_exit_events r prio procs i b :
+  old_run_events r prio procs i (XCommitFail b) = [EOffer r prio procs; EGrant r i].
+Proof. reflexivity. Qed.
+
+(* what the old exit did: one machine with one slot, parallelism 1. The task
+   whose combiner commit failed kept the slot; the next task could never be
+   placed and no machine would be started for it. *)
+Example old_commit_exit_starves :
   exists s, run (init_mgr 1 1)
-                ([EOffer 0 0 1; EStarted 1 1] ++ [EGrant 0 0] ++ [] (* XCommitFail: no Done *) ++ [EOffer 1 0 1]) = Some s /\
+                ([EOffer 0 0 1; EStarted 1 1] ++ tl (old_run_events 0 0 1 0 (XCommitFail true)) ++ [EOffer 1 0 1]) = Some s /\
             load_of s 0 = 1 /\ step s (EGrant 1 0) = None /\ start_count s = 0 /\ inflight s = [].
 Proof. eexists. split; [vm_compute; reflexivity|]. vm_compute. auto. Qed.
 
-(* a Run that takes any other exit leaves the manager's accounts as it found them *)
+(* the same history with the present exit: the slot comes back and the next task is placed *)
+Example commit_exit_frees :
+  exists s s', run (init_mgr 1 1)
+                ([EOffer 0 0 1; EStarted 1 1] ++ tl (run_events 0 0 1 0 (XCommitFail true)) ++ [EOffer 1 0 1]) = Some s /\
+            load_of s 0 = 0 /\ step s (EGrant 1 0) = Some s' /\ load_of s' 0 = 1.
+Proof. eexists. eexists. split; [vm_compute; reflexivity|]. vm_compute. auto. Qed.
+
+(* a Run, whatever its exit, leaves the manager's accounts as it found them *)
 Lemma start_rule_same t :
   need (start_rule t) = need t /\ outs (start_rule t) = outs t /\ schedQ (start_rule t) = schedQ t.
 Proof. unfold start_rule. destruct (start_count t =? 0); cbn; auto. Qed.
@@ -680,12 +693,11 @@ Qed.
 
 Theorem run_path_restores s r prio procs i x s' :
   Inv s -> (forall g, In g (outs s) -> grid g <> r) -> (forall q, In q (schedQ s) -> rid q <> r) ->
-  x <> XCommitFail ->
   run s (run_events r prio procs i x) = Some s' ->
   need s' = need s /\ outs s' = outs s /\ schedQ s' = schedQ s /\
   forall m', In m' (machs s') -> mload m' = out_sum (mid m') (outs s).
 Proof.
-  intros I Fg Fq Nx H.
+  intros I Fg Fq H.
   pose proof (inv_run _ _ _ I H) as I'.
   assert (Hloads : outs s' = outs s -> forall m', In m' (machs s') -> mload m' = out_sum (mid m') (outs s)).
   { intros E m' Hm. pose proof (inv_cons _ I') as Hc. rewrite Forall_forall in Hc. rewrite <- E. apply Hc. exact Hm. }
@@ -693,7 +705,7 @@ Proof.
   destruct (run_granted x) eqn:Eg.
   - (* Offer; Grant; Done *)
     assert (Hc : exists k, run_calls x = [CDone k]).
-    { destruct x as [| [|] | | | | k]; try discriminate; try congruence; simpl; eauto. }
+    { destruct x as [| [|] | | | [|] | k]; try discriminate; simpl; eauto. }
     destruct Hc as (k & Hc). rewrite Hc in H. simpl in H.
     destruct (step s (EOffer r prio procs)) as [s1|] eqn:E1; [|discriminate].
     destruct (step s1 (EGrant r i)) as [s2|] eqn:E2; [|discriminate].
